@@ -237,7 +237,9 @@ type Filler struct {
 	ValidUTF8 bool
 }
 
-var rawPool = []string{`1`, `"s"`, `null`, `true`, `{"a":1}`, `[1,2]`, ` {"a" : [1, 2] } `, `"<&>"`, `" "`, `{"k":"v\n"}`, `1.50`, `-0`, `1e2`, "[\n1\n]", `{}`, `[]`, `"é"`}
+var rawPool = []string{`1`, `"s"`, `null`, `true`, `{"a":1}`, `[1,2]`, ` {"a" : [1, 2] } `, `"<&>"`, `" "`, `{"k":"v\n"}`, `1.50`, `-0`, `1e2`, "[\n1\n]", `{}`, `[]`, `"é"`,
+	// backslashes before quotes, escaped quotes, spaces inside and between strings
+	`{"dir": "C:\\tmp\\", "name": "a  b"}`, `["\\", " x ", "\\\"", " y "]`, `"\\" `, `{"a\\": "\\<script> ", "b \"q\" ": [ "\\\\" , " " ]}`, `["\\u005c\\", " < "]`}
 var rawBadPool = []string{``, `{`, `1 2`, `nul`, `"abc`, `{"a":}`, `[1,]`, `01`, "\"\x01\"", `tru`, ` `}
 var numPool = []string{"0", "1", "-1", "1.5", "1e2", "123456789012345678901234567890", "-0", "0.1", "1E-2", "3.14"}
 var numBadPool = []string{"", "01", "1.", "abc", "-", "1e", "0x10", " 1", "1 ", "+1", ".5", "1_000", "Infinity", "NaN"}
